@@ -6,6 +6,13 @@ parameter), and validity predicates over the *output* of each reordering routine
 command objects by identity, relative order of every conflicting pair, A/B/C partition, grid rows in
 temporal order, DAG reachability).  No expected order is ever assumed: for short sequences *every*
 topological sort of the DAG the repo builds is checked.
+
+Routines that replace commands (optimize_circuit merging / cancelling neighbours, GBS collecting the Fock
+measurements, gaussian_merge folding Gaussian gates into GaussianTransform + Dgate) are judged by the
+same relation: surviving commands keep the order of every conflicting pair and, wire by wire, a created
+command lies between the same survivors as the commands it replaces (wire_problem).  gaussian_merge is
+additionally observed one merge round at a time, and the graph it rebuilt is checked for a path between
+every pair that must stay ordered (merge_round_problem), i.e. for every linearisation it may be sorted to.
 """
 from __future__ import annotations
 
@@ -18,30 +25,45 @@ from vf.core import Sub
 
 RULE = ("command sequences over {one-mode gate, ordered two-mode gate, homodyne, MeasureFock on 1..n modes, "
         "one- or two-mode gate parameterised by the measured value of another mode or of its own target, preparation}: exhaustively up to the stated "
-        "length over 3 modes, Hypothesis-generated up to 14 commands over 2..6 modes; a case is non-trivial "
-        "when it has >=1 conflicting pair and >=1 independent pair of commands (a reordering is possible and "
-        "constrained); distinct = distinct JSON of the sequence")
+        "length over 3 modes, Hypothesis-generated up to 14 commands over 2..6 modes (there also: rotation / inverse rotation pairs that cancel, "
+        "threshold measurements, gates reading two measured modes, register indices with gaps and >= 10, the same circuit through "
+        "Program.compile('gbs'[, optimize=True]) / Program.optimize); gaussian_merge: 2..11 commands over 1..4 modes mixing mergeable Gaussian gates "
+        "(incl. displacements and exact inverses) with Kerr-type gates, measurements, Ket preparations and gates reading a measured value; "
+        "a case is non-trivial when it has >=1 conflicting pair and >=1 independent pair of commands (a reordering is possible and "
+        "constrained; gaussian_merge: at least one block was merged and an unmerged command conflicts with it); distinct = distinct JSON of the sequence")
 ASSUMPTIONS = [
     "conflict relation of the oracle: share a register mode, or one command's register contains a mode whose "
     "measured value is a parameter of the other (read from the command objects' reg / op.measurement_deps)",
     "networkx topological sorting enumerations (all_topological_sorts) are trusted to enumerate linearisations",
+    "commands created by a routine (merged gates of optimize_circuit, GaussianTransform / Dgate of gaussian_merge, the collected MeasureFock) are "
+    "located by the modes read from the created object (reg, measurement_deps): on every wire they must lie between the same surviving commands "
+    "as commands that disappeared; a command may disappear without replacement only together with another one (exact cancellation)",
+    "gaussian_merge is observed one merge round at a time (GaussianMerge.merge_a_gaussian_op, .curr_seq) and its rebuilt graph (.new_DAG) is "
+    "checked for a path between every pair that has to stay ordered, i.e. for every linearisation DAG_to_list may return",
+    "GBS.compile may refuse a circuit only for a reason its docstring names: no Fock measurement, a command that depends on an earlier Fock "
+    "measurement (shares a mode with it or reads its result), or a mode measured twice",
 ]
 REQUIRED_LABELS = {"all": ["measured_param_dependency", "feedback_onto_measured_mode", "marked_between_unmarked", "measurefock_multi",
                            "gbs_accepted", "gbs_rejected", "all_toposorts_checked"]}
 
 _STATE = {}
+NREG = 16
 
 
 def _env():
     """Lazily import the repo and build one shared register (RegRefs are reused across cases so that the
-    name-cached MeasuredParameter symbols always refer to the same RegRef objects)."""
+    name-cached MeasuredParameter symbols always refer to the same RegRef objects).  The register belongs to one
+    shared 16-mode Program so that the same commands can also be sent through Program.compile / Program.optimize."""
     if not _STATE:
-        import strawberryfields  # noqa: F401
+        import numpy as np
+        import strawberryfields as sf
         from strawberryfields import ops
         import strawberryfields.program_utils as pu
         from strawberryfields.compilers.gbs import GBS
+        from strawberryfields.compilers.gaussian_merge import GaussianMerge
 
-        _STATE.update(ops=ops, pu=pu, GBS=GBS, regs=[pu.RegRef(i) for i in range(8)])
+        prog = sf.Program(NREG)
+        _STATE.update(ops=ops, pu=pu, GBS=GBS, GM=GaussianMerge, np=np, prog=prog, regs=list(prog.register))
     return _STATE
 
 
@@ -68,10 +90,46 @@ def alphabet(nm):
     return A
 
 
+def deps_of(item):
+    """modes whose measured value the command reads: None | int | list of ints in the case JSON"""
+    d = item[2]
+    if d is None:
+        return set()
+    if isinstance(d, int):
+        return {d}
+    return set(d)
+
+
+def remap(items, mode_map):
+    """mode labels 0..nm-1 of the case -> register indices (registers with gaps / two-digit indices)"""
+    if not mode_map:
+        return [list(it) for it in items]
+    out = []
+    for kind, modes, dep in items:
+        if dep is not None:
+            dep = mode_map[dep] if isinstance(dep, int) else [mode_map[d] for d in dep]
+        out.append([kind, [mode_map[m] for m in modes], dep])
+    return out
+
+
+def _unitary(np, k):
+    return np.fft.fft(np.eye(k)) / np.sqrt(k)
+
+
+def _sympl(np, k):
+    r = [0.2 - 0.05 * i for i in range(k)]
+    return np.diag([np.exp(-x) for x in r] + [np.exp(x) for x in r])
+
+
+GM_GAUSS = ("S", "R", "Ri", "D", "Di", "BS", "BSi", "S2", "MZ", "IF", "GT")   # kinds gaussian_merge may merge
+GM_NONGAUSS = ("K", "V", "CK", "ffk", "mx", "mf", "pk")                         # kinds it has to leave alone
+
+
 def make_cmd(item, k=0):
     e = _env()
-    ops, pu, regs = e["ops"], e["pu"], e["regs"]
-    kind, modes, dep = item
+    ops, pu, regs, np = e["ops"], e["pu"], e["regs"], e["np"]
+    kind, modes = item[0], item[1]
+    dep = sorted(deps_of(item))
     if kind == "g1":
         op = ops.Sgate(0.1 + 0.01 * k)
     elif kind == "g2":
@@ -80,14 +138,55 @@ def make_cmd(item, k=0):
         op = ops.MeasureHomodyne(0.0)
     elif kind == "mf":
         op = ops.MeasureFock()
+    elif kind == "mt":
+        op = ops.MeasureThreshold()
     elif kind == "ff":
-        op = ops.Rgate(regs[dep].par)
+        # one measured value, or an expression of two measured values
+        op = ops.Rgate(regs[dep[0]].par) if len(dep) == 1 else ops.Rgate(regs[dep[0]].par + 2 * regs[dep[1]].par)
     elif kind == "ff2":
-        op = ops.BSgate(regs[dep].par, 0.2)
+        # the measured values sit in the first, or in the first and the second parameter
+        op = ops.BSgate(regs[dep[0]].par, 0.2) if len(dep) == 1 else ops.BSgate(regs[dep[0]].par, regs[dep[1]].par)
     elif kind == "pr":
         op = ops.Coherent(0.2)
     elif kind == "ch":
         op = ops.LossChannel(0.5)
+    elif kind == "r":
+        op = ops.Rgate(0.4)
+    elif kind == "ri":
+        op = ops.Rgate(0.4).H  # cancels "r" exactly
+    # ---- gaussian_merge alphabet
+    elif kind == "S":
+        op = ops.Sgate(0.3, 0.2)
+    elif kind == "R":
+        op = ops.Rgate(0.4)
+    elif kind == "Ri":
+        op = ops.Rgate(-0.4)
+    elif kind == "D":
+        op = ops.Dgate(0.2, 0.1)
+    elif kind == "Di":
+        op = ops.Dgate(0.2, 0.1).H
+    elif kind == "BS":
+        op = ops.BSgate(0.3, 0.1)
+    elif kind == "BSi":
+        op = ops.BSgate(0.3, 0.1).H
+    elif kind == "S2":
+        op = ops.S2gate(0.2, 0.1)
+    elif kind == "MZ":
+        op = ops.MZgate(0.3, 0.5)
+    elif kind == "IF":
+        op = ops.Interferometer(_unitary(np, len(modes)))
+    elif kind == "GT":
+        op = ops.GaussianTransform(_sympl(np, len(modes)))
+    elif kind == "K":
+        op = ops.Kgate(0.1)
+    elif kind == "V":
+        op = ops.Vgate(0.1)
+    elif kind == "CK":
+        op = ops.CKgate(0.1)
+    elif kind == "ffk":
+        op = ops.Kgate(regs[dep[0]].par)
+    elif kind == "pk":
+        op = ops.Ket(np.array([0.0, 1.0]))
     else:
         raise ValueError(kind)
     return pu.Command(op, [regs[m] for m in modes])
@@ -98,9 +197,28 @@ def make_cmd(item, k=0):
 # ---------------------------------------------------------------------------------------------
 def item_conflict(a, b):
     ra, rb = set(a[1]), set(b[1])
-    da = set() if a[2] is None else {a[2]}
-    db = set() if b[2] is None else {b[2]}
+    da, db = deps_of(a), deps_of(b)
     return bool(ra & rb) or bool(ra & db) or bool(rb & da)
+
+
+def sig_conflict(a, b):
+    """a, b: (modes acted on, modes whose measured value is read)"""
+    return bool(a[0] & b[0]) or bool(a[0] & b[1]) or bool(b[0] & a[1])
+
+
+def obj_sig(c):
+    """wires of a command the routine under test created (there is no descriptor for it): read from the object"""
+    return (frozenset(r.ind for r in c.reg), frozenset(r.ind for r in c.op.measurement_deps))
+
+
+def make_sigof(items, cmds):
+    known = {id(c): (frozenset(it[1]), frozenset(deps_of(it))) for it, c in zip(items, cmds)}
+
+    def sigof(c):
+        s = known.get(id(c))
+        return obj_sig(c) if s is None else s
+
+    return sigof
 
 
 def order_problem(seq_items, inp, out, label):
@@ -115,6 +233,114 @@ def order_problem(seq_items, inp, out, label):
     return None
 
 
+def wire_problem(prev, out, sigof, label):
+    """A routine that may replace commands (merge, cancel, collect) turned ``prev`` into ``out``.  Commands present in both
+    (by identity) are survivors.  Valid iff no command is emitted twice, every conflicting pair of survivors keeps its order
+    and, on every wire, a created command lies between the same survivors as some command that disappeared.  A command
+    that disappears without any replacement between its surviving neighbours must do so together with a second one."""
+    pid = {id(c): k for k, c in enumerate(prev)}
+    oid = {}
+    for p, c in enumerate(out):
+        if id(c) in oid:
+            return label + ".multiset", "output position %d repeats a command" % p
+        oid[id(c)] = p
+    surv = [c for c in prev if id(c) in oid]
+    for i, a in enumerate(surv):
+        for b in surv[i + 1:]:
+            if sig_conflict(sigof(a), sigof(b)) and oid[id(a)] > oid[id(b)]:
+                return label + ".order", "commands #%d and #%d of the source conflict but were swapped" % (pid[id(a)], pid[id(b)])
+    wires = set()
+    for c in list(prev) + list(out):
+        wires |= sigof(c)[0] | sigof(c)[1]
+
+    def profile(lst, known, w):
+        seen = frozenset()
+        prof = {}
+        for c in lst:
+            sg = sigof(c)
+            if w not in sg[0] and w not in sg[1]:
+                continue
+            if id(c) in known:
+                seen = seen | {id(c)}
+            else:
+                prof[seen] = prof.get(seen, 0) + 1
+        return prof
+
+    for w in sorted(wires):
+        gone = profile(prev, oid, w)
+        made = profile(out, pid, w)
+        for key in made:
+            if not gone.get(key):
+                return label + ".misplaced_new", ("wire %d: a command created by the routine sits after source commands %s where no source command disappeared"
+                                                  % (w, sorted(pid[i] for i in key)))
+        for key, cnt in gone.items():
+            if not made.get(key) and cnt < 2:
+                return label + ".lost", "wire %d: one command after source commands %s vanished without a replacement" % (w, sorted(pid[i] for i in key))
+    return None
+
+
+def merge_round_problem(prev, out, dag, sigof, gaussian, label, note=None):
+    """One merge round of gaussian_merge.  Returns (signature, detail) or None.  ``dag`` (may be None) is the graph the
+    routine sorted to obtain ``out``: every pair that has to stay ordered must be connected by a path in it."""
+    pid = {id(c): k for k, c in enumerate(prev)}
+    oid = {}
+    for p, c in enumerate(out):
+        if id(c) in oid:
+            return label + ".multiset", "output position %d repeats a command" % p
+        oid[id(c)] = p
+    surv = [c for c in prev if id(c) in oid]
+    gone = [c for c in prev if id(c) not in oid]
+    made = [c for c in out if id(c) not in pid]
+    if not gone or not made:
+        return label + ".empty_round", "the round reported a merge but removed %d and created %d commands" % (len(gone), len(made))
+    for c in gone:
+        if not gaussian(c):
+            return label + ".nongaussian_removed", "source command #%d is not a mergeable Gaussian gate but disappeared" % pid[id(c)]
+    for c in made:
+        if type(c.op).__name__ not in ("GaussianTransform", "Dgate"):
+            return label + ".foreign_command", "the round created a %s" % type(c.op).__name__
+    need = []  # (first, second, why)
+    for i, a in enumerate(surv):
+        for b in surv[i + 1:]:
+            if sig_conflict(sigof(a), sigof(b)):
+                need.append((a, b, "unmerged #%d before unmerged #%d" % (pid[id(a)], pid[id(b)])))
+    for s in surv:
+        sides = set()
+        for m in gone:
+            if sig_conflict(sigof(s), sigof(m)):
+                sides.add(pid[id(m)] > pid[id(s)])
+        for x in made:
+            if not sig_conflict(sigof(s), sigof(x)):
+                continue
+            if not sides:
+                return label + ".misplaced_new", "created %s acts on a mode of unmerged #%d that no merged command touched" % (type(x.op).__name__, pid[id(s)])
+            if len(sides) == 2:
+                return label + ".merged_across", "merged commands lie on both sides of unmerged #%d, which conflicts with them" % pid[id(s)]
+            if True in sides:
+                need.append((s, x, "unmerged #%d before the merged block" % pid[id(s)]))
+            else:
+                need.append((x, s, "merged block before unmerged #%d" % pid[id(s)]))
+    for x in made:
+        for y in made:
+            if type(x.op).__name__ == "GaussianTransform" and type(y.op).__name__ == "Dgate" and sig_conflict(sigof(x), sigof(y)):
+                need.append((x, y, "transformation before its displacement"))
+    for a, b, why in need:
+        if oid[id(a)] > oid[id(b)]:
+            return label + ".order", "returned list violates: " + why
+    if dag is not None:
+        if sorted(map(id, dag.nodes)) != sorted(oid):
+            return label + ".dag_nodes", "the rebuilt graph does not hold exactly the returned commands"
+        reach = {}
+        for c in out:
+            reach[id(c)] = set(map(id, nx.descendants(dag, c)))
+        for a, b, why in need:
+            if id(b) not in reach[id(a)]:
+                # (finding F60, fixed: the displacement gate of a merged block used to get no edge to a successor whose other
+                # non-Gaussian predecessor acts on the displaced mode; replays/C04/F60-*.json)
+                return label + ".dag_missing_dependency", "rebuilt graph has no path for: %s (a legal topological sort may swap them)" % why
+    return None
+
+
 PREDICATES = {
     "mf": lambda ops: (lambda o: isinstance(o, ops.MeasureFock)),
     "g2": lambda ops: (lambda o: isinstance(o, ops.BSgate)),
@@ -123,12 +349,59 @@ PREDICATES = {
 }
 
 
+def gbs_problem(ops, items, cmds, out, label, strict=True):
+    """out: command list GBS accepted, or None when it refused (CircuitError).  strict: the circuit reached GBS.compile
+    unchanged (no optimisation in front), so acceptance / refusal can be decided from the source."""
+    n = len(cmds)
+    src_mf = [k for k in range(n) if items[k][0] == "mf"]
+    blocked = [(k, j) for k in src_mf for j in range(k + 1, n) if item_conflict(items[k], items[j])]
+    if out is None:
+        if strict and src_mf and not blocked:
+            return label + ".rejected_legal", "circuit with Fock measurements %s that nothing depends on was refused" % [items[k][1] for k in src_mf]
+        return None
+    out_mf = [c for c in out if isinstance(c.op, ops.MeasureFock)]
+    want = sorted(set(m for k in src_mf for m in items[k][1]))
+    if len(out_mf) != 1 or out[-1] is not out_mf[0] or [r.ind for r in out_mf[0].reg] != want:
+        return label + ".measure_collection", "expected one final MeasureFock on %s, got %s" % (want, [[r.ind for r in c.reg] for c in out_mf])
+    if strict:
+        rest_in = [cmds[k] for k in range(n) if k not in src_mf]
+        rest_items = [items[k] for k in range(n) if k not in src_mf]
+        pr = order_problem(rest_items, rest_in, [c for c in out if not isinstance(c.op, ops.MeasureFock)], label)
+        if pr:
+            return pr
+        # accepting is only legal if moving the measurements to the end crossed no dependency
+        if blocked:
+            k, j = blocked[0]
+            return label + ".accepted_illegal", "MeasureFock #%d %s was moved past conflicting command #%d %s" % (k, items[k], j, items[j])
+    return wire_problem(cmds, out, make_sigof(items, cmds), label)
+
+
+def optimize_problem(items, cmds, out, label):
+    n = len(cmds)
+    idx = {id(c): k for k, c in enumerate(cmds)}
+    if len(out) == n:
+        return order_problem(items, cmds, out, label)
+    surv = [c for c in out if id(c) in idx]
+    ks = [idx[id(c)] for c in surv]
+    pos = {k: p for p, k in enumerate(ks)}
+    for a in ks:
+        for b in ks:
+            if a < b and item_conflict(items[a], items[b]) and pos[a] > pos[b]:
+                return label + ".order", "surviving commands #%d and #%d swapped" % (a, b)
+    if len(out) > n:
+        return label + ".grew", "optimised circuit is longer than the source"
+    # merged commands must lie where the commands they replace were
+    return wire_problem(cmds, out, make_sigof(items, cmds), label)
+
+
 def check_seq(ctx, case):
     e = _env()
     ops, pu, GBS, regs = e["ops"], e["pu"], e["GBS"], e["regs"]
-    items = case["seq"]
+    mode_map = case.get("mode_map")
+    items = remap(case["seq"], mode_map)
     cmds = [make_cmd(it, k) for k, it in enumerate(items)]
     n = len(cmds)
+    used = sorted(mode_map) if mode_map else list(range(case["nm"]))
 
     # classify
     nconf = sum(1 for i in range(n) for j in range(i + 1, n) if item_conflict(items[i], items[j]))
@@ -136,15 +409,32 @@ def check_seq(ctx, case):
     labels = []
     if any(it[0] in ("ff", "ff2") for it in items):
         labels.append("measured_param_dependency")
-    if any(it[0] in ("ff", "ff2") and it[2] in it[1] for it in items):
+    if any(it[0] in ("ff", "ff2") and deps_of(it) & set(it[1]) for it in items):
         labels.append("feedback_onto_measured_mode")
+    if any(len(deps_of(it)) > 1 for it in items):
+        labels.append("two_measured_modes_in_one_gate")
     if any(it[0] == "mf" and len(it[1]) > 1 for it in items):
         labels.append("measurefock_multi")
     for i in range(1, n - 1):
         if items[i][0] == "mf" and items[i - 1][0] != "mf" and items[i + 1][0] != "mf":
             labels.append("marked_between_unmarked")
             break
-    ctx.note(case, nontrivial=(nconf >= 1 and nind >= 1), labels=labels)
+    if used and used[-1] >= 10:
+        labels.append("mode_index_ge10")
+        if any(it[0] == "mf" and max(it[1]) >= 10 and min(it[1]) < 10 and min(it[1]) > 1 for it in items):
+            labels.append("measurefock_one_and_two_digit_modes")
+    if used != list(range(len(used))):
+        labels.append("register_with_gaps")
+    # a rotation directly followed on its wire by its exact inverse (the optimiser cancels the pair)
+    last = {}
+    for k, it in enumerate(items):
+        for w in set(it[1]) | deps_of(it):
+            if it[0] in ("r", "ri") and w in last and items[last[w]][0] in ("r", "ri") and items[last[w]][0] != it[0]:
+                labels.append("inverse_pair_neighbours")
+            last[w] = k
+    if case.get("api"):
+        labels.append("program_api")
+    ctx.note(case, nontrivial=(nconf >= 1 and nind >= 1), labels=sorted(set(labels)))
 
     # --- list_to_grid: rows are in temporal order and contain the command on each dependency wire
     try:
@@ -157,10 +447,15 @@ def check_seq(ctx, case):
         if -1 in ks or ks != sorted(ks) or len(set(ks)) != len(ks):
             return ctx.fail("grid.row_order", "wire %s holds commands %s (not in temporal order)" % (wire, ks))
     for k, it in enumerate(items):
-        need = set(it[1]) | (set() if it[2] is None else {it[2]})
+        need = set(it[1]) | deps_of(it)
         for w in need:
             if not any(c is cmds[k] for c in grid.get(w, [])):
                 return ctx.fail("grid.missing", "command #%d %s missing on wire %d" % (k, it, w))
+    for wire, row in grid.items():
+        for c in row:
+            it = items[idx[id(c)]]
+            if wire not in set(it[1]) | deps_of(it):
+                return ctx.fail("grid.foreign_wire", "command #%d %s entered on wire %s" % (idx[id(c)], it, wire))
 
     # --- DAG: nodes are exactly the commands, consistent with input order, every conflicting pair ordered
     order = case.get("grid_order")
@@ -234,7 +529,7 @@ def check_seq(ctx, case):
 
     # --- GBS compilation: all Fock measurements collected into one, last; the rest a legal reordering
     try:
-        out = GBS().compile(list(cmds), regs[: case["nm"]])
+        out = GBS().compile(list(cmds), [regs[i] for i in used])
     except pu.CircuitError:
         ctx.label("gbs_rejected")
         out = None
@@ -242,54 +537,226 @@ def check_seq(ctx, case):
         return ctx.crash(exc, "gbs_compile")
     if out is not None:
         ctx.label("gbs_accepted")
-        src_mf = [k for k in range(n) if items[k][0] == "mf"]
-        out_mf = [c for c in out if isinstance(c.op, ops.MeasureFock)]
-        want = sorted(set(m for k in src_mf for m in items[k][1]))
-        if len(out_mf) != 1 or out[-1] is not out_mf[0] or [r.ind for r in out_mf[0].reg] != want:
-            return ctx.fail("gbs.measure_collection", "expected one final MeasureFock on %s, got %s" % (want, [[r.ind for r in c.reg] for c in out_mf]))
-        rest_in = [cmds[k] for k in range(n) if k not in src_mf]
-        rest_items = [items[k] for k in range(n) if k not in src_mf]
-        pr = order_problem(rest_items, rest_in, [c for c in out if not isinstance(c.op, ops.MeasureFock)], "gbs")
-        if pr:
-            return ctx.fail(*pr)
-        # accepting is only legal if moving the measurements to the end crossed no dependency
-        for k in src_mf:
-            for j in range(k + 1, n):
-                if item_conflict(items[k], items[j]):
-                    return ctx.fail("gbs.accepted_illegal", "MeasureFock #%d %s was moved past conflicting command #%d %s" % (k, items[k], j, items[j]))
+        if len([1 for it in items if it[0] == "mf"]) >= 2:
+            ctx.label("gbs_accepted_several_measurefock")
+    pr = gbs_problem(ops, items, cmds, out, "gbs")
+    if pr:
+        return ctx.fail(*pr)
 
-    # --- optimize_circuit: surviving commands keep their dependency order
+    # --- optimize_circuit: surviving commands keep their dependency order, merged commands replace their sources in place
     try:
         out = pu.optimize_circuit(list(cmds))
     except Exception as exc:  # pylint: disable=broad-except
         return ctx.crash(exc, "optimize_circuit")
-    surv = [c for c in out if id(c) in idx]
-    if len(out) == n:
-        pr = order_problem(items, cmds, out, "optimize_roundtrip")
+    if len(out) < n:
+        ctx.label("optimize_merged_or_cancelled")
+        if any(id(c) not in idx for c in out) and any(id(c) in idx for c in out):
+            ctx.label("optimize_merged_next_to_survivor")
+    pr = optimize_problem(items, cmds, out, "optimize_roundtrip")
+    if pr:
+        return ctx.fail(*pr)
+
+    # --- the same routines reached through the Program API (Program.compile(compiler="gbs").circuit, Program.optimize)
+    if case.get("api"):
+        prog = e["prog"]
+        prog.circuit = list(cmds)
+        for opt in (False, True):
+            try:
+                out = list(prog.compile(compiler="gbs", optimize=opt).circuit)
+            except pu.CircuitError:
+                out = None
+            except Exception as exc:  # pylint: disable=broad-except
+                return ctx.crash(exc, "program_compile_gbs")
+            pr = gbs_problem(ops, items, cmds, out, "program_gbs_optimize" if opt else "program_gbs", strict=not opt)
+            if pr:
+                return ctx.fail(*pr)
+        try:
+            out = list(prog.optimize().circuit)
+        except Exception as exc:  # pylint: disable=broad-except
+            return ctx.crash(exc, "program_optimize")
+        pr = optimize_problem(items, cmds, out, "program_optimize")
         if pr:
             return ctx.fail(*pr)
-    else:
-        ks = [idx[id(c)] for c in surv]
-        pos = {k: p for p, k in enumerate(ks)}
-        for a in ks:
-            for b in ks:
-                if a < b and item_conflict(items[a], items[b]) and pos[a] > pos[b]:
-                    return ctx.fail("optimize_roundtrip.order", "surviving commands #%d and #%d swapped" % (a, b))
-        if len(out) > n:
-            return ctx.fail("optimize_roundtrip.grew", "optimised circuit is longer than the source")
+        if len(prog.circuit) != n or any(a is not b for a, b in zip(prog.circuit, cmds)):
+            return ctx.fail("program.source_modified", "compile / optimize changed the circuit of the source program")
     return None
 
 
+def check_gm(ctx, case):
+    """gaussian_merge: its DAG surgery is a reordering too.  Unmerged commands keep their order relative to each other and
+    to the merged blocks, observed for the whole compilation and for every single merge round (list and rebuilt graph)."""
+    e = _env()
+    pu, GM, regs = e["pu"], e["GM"], e["regs"]
+    mode_map = case.get("mode_map")
+    items = remap(case["seq"], mode_map)
+    cmds = [make_cmd(it, k) for k, it in enumerate(items)]
+    n = len(cmds)
+    used = sorted(mode_map) if mode_map else list(range(case["nm"]))
+    registers = [regs[i] for i in used]
+    sigof = make_sigof(items, cmds)
+    kind_of = {id(c): it[0] for it, c in zip(items, cmds)}
+
+    def gaussian(c):
+        return kind_of.get(id(c), "made") in GM_GAUSS + ("made",)
+
+    labels = set()
+    if any(it[0] == "ffk" for it in items):
+        labels.add("gm_nongaussian_reads_measurement")
+    if used and used[-1] >= 10:
+        labels.add("mode_index_ge10")
+    if used != list(range(len(used))):
+        labels.add("register_with_gaps")
+    problem = None
+    crash = None
+    interesting = False
+
+    # --- one merge round at a time (first: the number of rounds is capped here, compile() itself loops until no merge is left)
+    rounds_ok = True
+    final_len = None
+    if hasattr(GM, "merge_a_gaussian_op"):
+        gm = GM()
+        gm.curr_seq = list(cmds)
+        rounds = 0
+        while problem is None:
+            prev = list(gm.curr_seq)
+            pids = set(map(id, prev))
+            try:
+                merged = gm.merge_a_gaussian_op(registers)
+            except nx.NetworkXUnfeasible as exc:
+                problem = ("gaussian_merge.cycle", "round %d: the rebuilt graph has a cycle: %s" % (rounds + 1, str(exc)[:80]))
+                break
+            except Exception as exc:  # pylint: disable=broad-except
+                crash = (exc, "gaussian_merge_round")
+                break
+            cur = list(gm.curr_seq)
+            cids = set(map(id, cur))
+            if not merged:
+                if len(cur) != len(prev) or any(a is not b for a, b in zip(cur, prev)):
+                    problem = ("gaussian_merge_round.changed_without_merge", "a round that reported no merge changed the circuit")
+                break
+            rounds += 1
+            if rounds > 4 * n + 4:
+                problem = ("gaussian_merge.no_termination", "more than %d merge rounds on %d commands" % (4 * n + 4, n))
+                break
+            problem = merge_round_problem(prev, cur, getattr(gm, "new_DAG", None), sigof, gaussian, "gaussian_merge_round", note=labels)
+            made = [c for c in cur if id(c) not in pids]
+            gone = [c for c in prev if id(c) not in cids]
+            if any(type(c.op).__name__ == "Dgate" for c in made):
+                labels.add("gm_block_with_displacement")
+            if made and all(type(c.op).__name__ == "Dgate" for c in made):
+                labels.add("gm_block_displacement_only")
+            if any(type(c.op).__name__ == "GaussianTransform" and abs(c.op.p[0] - e["np"].identity(len(c.op.p[0]))).max() < 1e-12 for c in made):
+                labels.add("gm_identity_block")
+            for s in cur:
+                if id(s) in pids and any(sig_conflict(sigof(s), sigof(m)) for m in gone):
+                    interesting = True
+                    labels.add("gm_unmerged_gaussian_next_to_block" if gaussian(s) else "gm_nongaussian_next_to_block")
+        if rounds >= 1:
+            labels.add("gm_merged")
+        if rounds >= 2:
+            labels.add("gm_several_rounds")
+        rounds_ok = problem is None and crash is None
+        final_len = len(gm.curr_seq)
+
+    # --- the whole compilation through the public entry point
+    if rounds_ok:
+        try:
+            out = list(GM().compile(list(cmds), registers))
+        except nx.NetworkXUnfeasible as exc:
+            out, problem = None, ("gaussian_merge.cycle", "the rebuilt graph has a cycle: %s" % str(exc)[:80])
+        except Exception as exc:  # pylint: disable=broad-except
+            out, crash = None, (exc, "gaussian_merge_compile")
+        if out is not None:
+            oid = set(map(id, out))
+            for k, c in enumerate(cmds):
+                if id(c) not in oid and not gaussian(c):
+                    problem = problem or ("gaussian_merge.nongaussian_removed", "source command #%d %s disappeared" % (k, items[k]))
+            for c in out:
+                if id(c) not in kind_of and type(c.op).__name__ not in ("GaussianTransform", "Dgate"):
+                    problem = problem or ("gaussian_merge.foreign_command", "compilation created a %s" % type(c.op).__name__)
+            problem = problem or wire_problem(cmds, out, sigof, "gaussian_merge")
+            if problem is None and final_len is not None and len(out) != final_len:
+                problem = ("gaussian_merge.compile_differs_from_rounds", "compile() returned %d commands, the same rounds one by one %d" % (len(out), final_len))
+
+    ctx.note(case, nontrivial=interesting, labels=sorted(labels))
+    if crash:
+        return ctx.crash(crash[0], crash[1])
+    if problem:
+        return ctx.fail(*problem)
+    return None
+
+
+class _FakeReg:
+    def __init__(self, ind):
+        self.ind = ind
+
+
+class _FakeOp:
+    measurement_deps = ()
+
+
+class GaussianTransform(_FakeOp):  # names matter to merge_round_problem (self-test only)
+    pass
+
+
+class Dgate(_FakeOp):
+    pass
+
+
+class _FakeCmd:
+    def __init__(self, op, modes):
+        self.op = op
+        self.reg = [_FakeReg(m) for m in modes]
+
+
 def selftest():
-    """the oracle's conflict relation and order predicate on hand-made examples"""
+    """the oracle's conflict relation and order predicates on hand-made examples"""
     assert item_conflict(["g1", [0], None], ["g2", [1, 0], None])
     assert not item_conflict(["g1", [0], None], ["g1", [1], None])
     assert item_conflict(["mx", [0], None], ["ff", [1], 0])
+    assert item_conflict(["mx", [2], None], ["ff", [1], [0, 2]])
+    assert not item_conflict(["mx", [3], None], ["ff", [1], [0, 2]])
     assert not item_conflict(["ff", [1], 0], ["ff", [2], 0])
+    assert remap([["ff", [1], 0], ["ff2", [0, 2], [1, 2]]], [3, 7, 12]) == [["ff", [7], 3], ["ff2", [3, 12], [7, 12]]]
     a, b = object(), object()
     assert order_problem([["g1", [0], None], ["g2", [0, 1], None]], [a, b], [b, a], "x")[0] == "x.order"
     assert order_problem([["g1", [0], None], ["g1", [1], None]], [a, b], [b, a], "x") is None
     assert order_problem([["g1", [0], None], ["g1", [1], None]], [a, b], [b], "x")[0] == "x.multiset"
+    # wire_problem: S S K on wire 0 -> merged S' must stay in front of K; R Ri may vanish as a pair, a single R may not
+    s1, s2, k, r1 = object(), object(), object(), object()
+    its = [["g1", [0], None], ["g1", [0], None], ["K", [0], None], ["r", [1], None]]
+    sg = make_sigof(its, [s1, s2, k, r1])
+    m = _FakeCmd(_FakeOp(), [0])
+    assert wire_problem([s1, s2, k, r1], [m, k, r1], sg, "x") is None
+    assert wire_problem([s1, s2, k, r1], [k, m, r1], sg, "x")[0] == "x.misplaced_new"
+    assert wire_problem([s1, s2, k, r1], [k, r1], sg, "x") is None
+    assert wire_problem([s1, s2, k, r1], [m, k], sg, "x")[0] == "x.lost"
+    assert wire_problem([s1, s2, k, r1], [m, k, k, r1], sg, "x")[0] == "x.multiset"
+    # merge_round_problem: BS(0,1) R(0) | K(1) S2(1,2): the block {BS, R} -> T(0,1) must precede K and S2
+    bs, r, kk, s2g = object(), object(), object(), object()
+    its = [["BS", [0, 1], None], ["R", [0], None], ["K", [1], None], ["S2", [1, 2], None]]
+    cm = [bs, r, kk, s2g]
+    sg = make_sigof(its, cm)
+    kinds = {id(c): it[0] for it, c in zip(its, cm)}
+    gauss = lambda c: kinds.get(id(c), "made") in GM_GAUSS + ("made",)  # noqa: E731
+    T = _FakeCmd(GaussianTransform(), [0, 1])
+    D = _FakeCmd(Dgate(), [1])
+    g = nx.DiGraph([(T, kk), (kk, s2g)])
+    assert merge_round_problem(cm, [T, kk, s2g], g, sg, gauss, "x") is None
+    assert merge_round_problem(cm, [kk, T, s2g], g, sg, gauss, "x")[0] == "x.order"
+    g2 = nx.DiGraph([(kk, s2g)])
+    g2.add_node(T)
+    assert merge_round_problem(cm, [T, kk, s2g], g2, sg, gauss, "x")[0] == "x.dag_missing_dependency"
+    g3 = nx.DiGraph([(T, D), (T, kk), (kk, s2g)])
+    seen = set()
+    assert merge_round_problem(cm, [T, D, kk, s2g], g3, sg, gauss, "x", note=seen)[0] == "x.dag_missing_dependency"   # D -> K missing, T -> K there (F60)
+    g4 = nx.DiGraph([(T, D), (D, kk), (kk, s2g)])
+    assert merge_round_problem(cm, [T, D, kk, s2g], g4, sg, gauss, "x") is None
+    g5 = nx.DiGraph([(T, D), (kk, s2g)])
+    assert merge_round_problem(cm, [T, D, kk, s2g], g5, sg, gauss, "x")[0] == "x.dag_missing_dependency"
+    assert merge_round_problem(cm, [T, s2g], None, sg, gauss, "x")[0] == "x.nongaussian_removed"
+    assert merge_round_problem([bs, kk, r, s2g][:3], [kk, _FakeCmd(GaussianTransform(), [0, 1])], None,
+                               make_sigof([its[0], ["K", [0], None], its[1]], [bs, kk, r]), gauss, "x")[0] == "x.merged_across"
 
 
 # ---------------------------------------------------------------------------------------------
@@ -308,46 +775,163 @@ def enum_cases(ctx):
 
 
 @st.composite
+def mode_map_of(draw, nm):
+    """register indices of the nm mode labels: the contiguous prefix, or increasing indices below 16 with gaps whose
+    upper part is two-digit (q[10]..q[15] sort differently as text)"""
+    style = draw(st.sampled_from(["prefix", "high", "gaps", "prefix", "high"]))
+    if style == "prefix":
+        return None
+    if style == "high":
+        lo = draw(st.integers(1, nm - 1)) if nm > 1 else 0
+        low = sorted(draw(st.permutations(range(2, 10)))[:lo])     # 2..9: text order differs from numeric order against 1x
+        high = sorted(draw(st.permutations(range(10, NREG)))[: nm - lo])
+        return low + high
+    return sorted(draw(st.permutations(range(NREG)))[:nm])
+
+
+@st.composite
 def random_case(draw):
     nm = draw(st.integers(2, 6))
     n = draw(st.integers(2, 14))
     seq = []
     for _ in range(n):
-        kind = draw(st.sampled_from(["g1", "g2", "g2", "mx", "mf", "mf", "ff", "ff2", "pr", "ch"]))
-        if kind in ("g1", "mx", "pr", "ch"):
+        kind = draw(st.sampled_from(["g1", "g2", "g2", "mx", "mf", "mf", "ff", "ff2", "pr", "ch", "r", "ri", "mt", "pair"]))
+        if kind in ("g1", "mx", "pr", "ch", "r", "ri", "mt"):
             seq.append([kind, [draw(st.integers(0, nm - 1))], None])
+        elif kind == "pair":
+            # a rotation and its exact inverse next to each other on one mode (cancelled by the optimiser), possibly with a
+            # command on another mode in between
+            m = draw(st.integers(0, nm - 1))
+            a, b = draw(st.sampled_from([("r", "ri"), ("ri", "r")]))
+            seq.append([a, [m], None])
+            if draw(st.booleans()):
+                seq.append(["g1", [(m + 1) % nm], None])
+            seq.append([b, [m], None])
         elif kind == "g2":
             seq.append([kind, list(draw(st.permutations(range(nm)))[:2]), None])
         elif kind == "mf":
             k = draw(st.integers(1, nm))
             seq.append([kind, list(draw(st.permutations(range(nm)))[:k]), None])
         elif kind == "ff":
-            # the measured mode may be the target itself (feedback onto the measured mode)
-            seq.append([kind, [draw(st.integers(0, nm - 1))], draw(st.integers(0, nm - 1))])
+            # the measured mode may be the target itself (feedback onto the measured mode); sometimes two measured modes
+            dep = draw(st.integers(0, nm - 1))
+            if draw(st.integers(0, 3)) == 0:
+                dep = list(draw(st.permutations(range(nm)))[:2])
+            seq.append([kind, [draw(st.integers(0, nm - 1))], dep])
         else:
             # two-mode gate parameterised by the measured value of a third mode or of one of its own targets
             p = draw(st.permutations(range(nm)))
-            seq.append([kind, [p[0], p[1]], draw(st.integers(0, nm - 1))])
+            dep = draw(st.integers(0, nm - 1))
+            if draw(st.integers(0, 3)) == 0:
+                dep = list(draw(st.permutations(range(nm)))[:2])
+            seq.append([kind, [p[0], p[1]], dep])
+    if draw(st.integers(0, 3)) == 0:
+        # GBS-shaped tail: the Fock measurements of the circuit are moved to the end as several commands on disjoint modes
+        seq = [it for it in seq if it[0] != "mf"]
+        perm = list(draw(st.permutations(range(nm))))
+        cut = draw(st.integers(1, len(perm)))
+        seq.append(["mf", perm[:cut], None])
+        if perm[cut:]:
+            seq.append(["mf", perm[cut:], None])
     order = draw(st.lists(st.integers(0, 7), max_size=6))
-    return {"nm": nm, "seq": seq, "grid_order": order}
+    case = {"nm": nm, "seq": seq, "grid_order": order}
+    mm = draw(mode_map_of(nm))
+    if mm:
+        case["mode_map"] = mm
+    if draw(st.integers(0, 3)) != 0:
+        case["api"] = True
+    return case
 
+
+@st.composite
+def gm_case(draw):
+    nm = draw(st.integers(1, 4))
+    one = ["R", "D", "S", "Ri", "Di", "D"]
+    two = ["BS", "BSi", "S2", "MZ", "BS"] if nm >= 2 else []
+    multi = ["IF", "GT"]
+    ng1 = ["K", "V", "K", "mx", "mf", "pk", "ffk"]
+    ng2 = ["CK", "CK", "mf"] if nm >= 2 else []
+
+    def gauss():
+        kind = draw(st.sampled_from(one + two + one + two + multi))
+        if kind in one:
+            return [kind, [draw(st.integers(0, nm - 1))], None]
+        if kind in two:
+            return [kind, list(draw(st.permutations(range(nm)))[:2]), None]
+        return [kind, list(draw(st.permutations(range(nm)))[: draw(st.integers(1, min(nm, 3)))]), None]
+
+    def nongauss():
+        kind = draw(st.sampled_from(ng1 + ng2))
+        if kind == "ffk":
+            return [kind, [draw(st.integers(0, nm - 1))], draw(st.integers(0, nm - 1))]
+        if kind in ng1 and not (kind == "mf" and nm >= 2 and draw(st.booleans())):
+            return [kind, [draw(st.integers(0, nm - 1))], None]
+        return [kind, list(draw(st.permutations(range(nm)))[:2]), None]
+
+    seq = []
+    if draw(st.booleans()):
+        # layers of Gaussian gates separated by layers of commands that cannot be merged (the shape the compiler is made for)
+        for _ in range(draw(st.integers(1, 3))):
+            seq += [gauss() for _ in range(draw(st.integers(1, 4)))]
+            seq += [nongauss() for _ in range(draw(st.integers(1, 2)))]
+        seq = seq[:11]
+    else:
+        for _ in range(draw(st.integers(2, 10))):
+            what = draw(st.integers(0, 7))
+            if what == 0 and nm >= 3:
+                # a Gaussian gate that directly follows the gate the merge starts from but must stay out of the block, because a
+                # two-mode non-Gaussian gate precedes it on its other mode: N(a,b); G(c,b); g(c); G'(a,b)
+                a, b, c = draw(st.permutations(range(nm)))[:3]
+                seq.append(["CK", draw(st.sampled_from([[a, b], [b, a]])), None])
+                seq.append([draw(st.sampled_from(two)), draw(st.sampled_from([[c, b], [b, c]])), None])
+                seq.append([draw(st.sampled_from(one)), [c], None])
+                seq.append([draw(st.sampled_from(two)), draw(st.sampled_from([[a, b], [b, a]])), None])
+            elif what == 1 and nm >= 2:
+                # two Gaussian gates on the same pair separated on one mode by a command that cannot be merged: G(a,b); g(b); N(b); G'(a,b)
+                a, b = draw(st.permutations(range(nm)))[:2]
+                seq.append([draw(st.sampled_from(two)), [a, b], None])
+                seq.append([draw(st.sampled_from(one)), [b], None])
+                seq.append([draw(st.sampled_from(["K", "V", "mx"])), [b], None])
+                seq.append([draw(st.sampled_from(two)), draw(st.sampled_from([[a, b], [b, a]])), None])
+            else:
+                seq.append(gauss() if what % 3 else nongauss())
+        seq = seq[:12]
+    case = {"nm": nm, "seq": seq}
+    mm = draw(mode_map_of(nm))
+    if mm:
+        case["mode_map"] = mm
+    return case
+
+
+REQUIRED_LABELS["all"] += ["mode_index_ge10", "register_with_gaps", "two_measured_modes_in_one_gate", "inverse_pair_neighbours",
+                           "optimize_merged_next_to_survivor", "program_api", "gbs_accepted_several_measurefock",
+                           "gm_merged", "gm_block_with_displacement", "gm_nongaussian_next_to_block",
+                           "gm_unmerged_gaussian_next_to_block", "gm_several_rounds", "measurefock_one_and_two_digit_modes"]
 
 SUBS = [
+    # the Hypothesis sub-checks come first: their shards run longest and the pool starts tasks in this order
+    Sub("random_long", check=check_seq, strategy=lambda ctx: random_case(),
+        examples={"quick": 1000, "thorough": 12000}, shards={"quick": 3, "thorough": 16},
+        rule="Hypothesis: 2..14 commands over 2..6 modes (register indices with gaps / >= 10), random wire insertion order for the DAG, "
+             "half of the cases also through Program.compile('gbs') / Program.optimize"),
+    Sub("gaussian_merge_order", check=check_gm, strategy=lambda ctx: gm_case(),
+        examples={"quick": 500, "thorough": 6000}, shards={"quick": 3, "thorough": 16},
+        rule="Hypothesis: 2..11 commands over 1..4 modes, Gaussian gates (incl. displacements, exact inverses) mixed with commands "
+             "gaussian_merge must not merge; whole compilation and every merge round (list and rebuilt graph) checked"),
     Sub("enum_small", check=check_seq, enumerate=enum_cases, exhaustive=True,
         shards={"quick": 6, "thorough": 16}, budget={"quick": 200, "thorough": 1500},
-        rule="every command sequence of length <= 3 (quick) / <= 4 (thorough) over a 3-mode alphabet of 26 command kinds"),
-    Sub("random_long", check=check_seq, strategy=lambda ctx: random_case(),
-        examples={"quick": 1500, "thorough": 12000}, shards={"quick": 2, "thorough": 16},
-        rule="Hypothesis: 2..14 commands over 2..6 modes, random wire insertion order for the DAG"),
+        rule="every command sequence of length <= 3 (quick) / <= 4 (thorough) over a 3-mode alphabet of 29 command kinds"),
 ]
 
 MANIFEST = {
     "technique": "bounded exhaustive enumeration + Hypothesis-generated command sequences, validity-predicate oracle over every legal linearisation",
-    "text": ("Every command sequence up to length 3 (quick) / 4 (thorough) over a 3-mode, 26-kind alphabet is enumerated "
+    "text": ("Every command sequence up to length 3 (quick) / 4 (thorough) over a 3-mode, 29-kind alphabet is enumerated "
              "completely and random sequences up to 14 commands / 6 modes are generated; for each, list_to_grid, grid_to_DAG, "
              "all topological sorts of the DAG (short sequences), DAG_to_list, group_operations (4 predicates), GBS.compile and "
-             "optimize_circuit are checked against an independent conflict relation (multiset by identity, order of every "
-             "conflicting pair, A/B/C partition, measurement collection). Exhaustive only for the enumerated sub-space."),
-    "note": ("Trusted: the harness conflict relation (self-tested at start-up), networkx all_topological_sorts. "
-             "gaussian_merge's DAG surgery is covered semantically under C11, not here."),
+             "optimize_circuit (also through Program.compile / Program.optimize) are checked against an independent conflict relation "
+             "(multiset by identity, order of every conflicting pair, A/B/C partition, measurement collection, position of merged "
+             "commands). gaussian_merge is checked one merge round at a time: unmerged commands keep their order relative to each "
+             "other and to the merged block in the returned list and by a path in the rebuilt graph. Exhaustive only for the enumerated sub-space."),
+    "note": ("Trusted: the harness conflict relation and wire predicates (self-tested at start-up), networkx all_topological_sorts / descendants. "
+             "The semantics of merged blocks (the matrices) are covered under C11 / C03, not here."),
 }
